@@ -214,3 +214,55 @@ func vpH_c02_yaml() {
 		}
 	}
 }
+
+func init() { vpRegister("c02_scalars", vpH_c02_scalars) }
+
+// Strings that, written plainly, read as another kind of scalar to some YAML
+// reader (booleans, null, numbers in several bases, base-60 numbers, dates) are
+// strings in a signed step: as an env value, a command, a plugin config value
+// and a matrix value they come back as the same strings on both legs, and the
+// step still verifies.
+func vpH_c02_scalars() {
+	ctx := context.Background()
+	like := []string{"true", "~", "1.5", "0x1F", "1e3", "010", "1:30", "80:80", "8080:80", "2001-01-01", "yes", "-", "=", "<<"}[vpInt(0, 13)]
+	step := &pipeline.CommandStep{Command: "c"}
+	where := vpInt(0, 3)
+	switch where {
+	case 0:
+		step.Env = map[string]string{"B": like}
+	case 1:
+		step.Command = like
+	case 2:
+		step.Plugins = pipeline.Plugins{{Source: "p#v1", Config: map[string]any{"k": like, "l": []any{like}}}}
+	default:
+		step.Matrix = &pipeline.Matrix{Setup: pipeline.MatrixSetup{"": {like, "m"}}}
+	}
+	s := vpSigSigner(1)
+	steps := pipeline.Steps{step}
+	err := SignSteps(ctx, steps, s, "r")
+	vpAssert(err == nil && step.Signature != nil, "signing succeeds")
+	if err != nil || step.Signature == nil {
+		return
+	}
+	p := &pipeline.Pipeline{Steps: steps}
+	for leg := 0; leg < 2; leg++ {
+		var n yaml.Node
+		if leg == 0 {
+			b, merr := json.Marshal(p)
+			vpAssert(merr == nil && yaml.Unmarshal(b, &n) == nil, "the signed pipeline marshals to readable JSON")
+		} else {
+			b, merr := yaml.Marshal(p)
+			vpAssert(merr == nil && yaml.Unmarshal(b, &n) == nil, "the signed pipeline marshals to readable YAML")
+		}
+		p2 := new(pipeline.Pipeline)
+		if ordered.Unmarshal(&n, p2) != nil || len(p2.Steps) != 1 {
+			vpAssert(false, "the marshalled pipeline re-parses to one step without warning")
+			continue
+		}
+		c2, isCmd := p2.Steps[0].(*pipeline.CommandStep)
+		vpAssert(isCmd && c2.Signature != nil, "the step is still a signed command step after the round trip")
+		if isCmd && c2.Signature != nil {
+			vpAssert(Verify(ctx, c2.Signature, s, &CommandStepWithInvariants{CommandStep: *c2, RepositoryURL: "r"}) == nil, "a signed step whose strings look like other scalars still verifies after marshal and re-parse")
+		}
+	}
+}
